@@ -242,6 +242,30 @@ def check(run, repo):
         run.check(ok, 'TABLE.roundtrip', 'PiecewiseCovEffect.from_dict', 'to_dict->from_dict',
                   'reloading the serialised model does not rebuild the same breakpoints/slopes/intercepts (%s)'
                   % show(o2), owner.module, fn)
+        if ok:
+            # the reloaded copy, the dictionary and the original are independent: editing one leaves the others as
+            # they were (a dictionary that shares its lists with the model is not a saved state)
+            xq2, Tq2 = w.I.D.sym('xq'), w.I.D.sym('Tq')
+            before = w.I.call_method(w.obj, 'get_UoRT', [], {'x': xq2, 'T': Tq2})
+            n_before = len(w.obj.attrs['intervals'].items)
+            w.ranks['xnew'] = Fr(12)
+            w.I.call_method(o2, 'insert', [], {'interval': w.I.D.sym('xnew'), 'slope': w.I.D.sym('knew')})
+            after = w.I.call_method(w.obj, 'get_UoRT', [], {'x': xq2, 'T': Tq2})
+            o_t, f_t = repo.find_method(ci, 'to_dict')
+            run.check(same(before, after) and len(w.obj.attrs['intervals'].items) == n_before, 'EFFECT.shared-state',
+                      'PiecewiseCovEffect.to_dict', 'edit the reloaded copy',
+                      'inserting a breakpoint into the copy rebuilt by from_dict(to_dict()) changes the original '
+                      '(value at the same coverage %s -> %s, %d -> %d breakpoints): the dictionary carries the '
+                      'model\'s own lists instead of copies' % (show(before, 80), show(after, 80), n_before,
+                                                               len(w.obj.attrs['intervals'].items)), o_t.module, f_t)
+            d2 = w.I.call_method(w.obj, 'to_dict', [], {})
+            saved = [len(v.items) for v in d2.d.values() if isinstance(v, ListV)] if isinstance(d2, DictV) else []
+            w.I.call_method(w.obj, 'insert', [], {'interval': w.I.D.sym('xnew2'), 'slope': w.I.D.sym('knew2')}) \
+                if w.ranks.setdefault('xnew2', Fr(7)) else None
+            now = [len(v.items) for v in d2.d.values() if isinstance(v, ListV)] if isinstance(d2, DictV) else []
+            run.check(saved == now, 'EFFECT.shared-state', 'PiecewiseCovEffect.to_dict', 'edit after saving',
+                      'a dictionary taken with to_dict() changes when the model is edited afterwards (list lengths %s '
+                      '-> %s)' % (saved, now), o_t.module, f_t)
     else:
         run.fail('TABLE.roundtrip', 'PiecewiseCovEffect.to_dict', 'to_dict', 'to_dict does not return a dict',
                  owner.module, fn)
